@@ -32,6 +32,13 @@ CHECKS = {
         note="Trusted: clang-14 JSON AST, the 30-line nanobind/omp.h stubs under /verif/stubs, sympy polynomial arithmetic. Assumptions (value ranges / injectivity of integer index maps supplied by the Python layer) are printed in the evidence. Unresolved Python arguments are listed as unknown, never reported.",
         ref="DESIGN.md §3 C13",
     ),
+    "C14": dict(
+        technique="static analysis on Python ast: guard-correlated alias/retention/overwrite analysis, path-sensitive definite-assignment (worlds of option-guard facts with class flag implications), open-term normal form of every eigenvalue->frequency conversion site, sibling-call keyword agreement across if-arms, who-reads rule for file writers",
+        level="other",
+        text="Decides, for every combination of the boolean output options (a product space no test enumerates), that no retained result view is overwritten through an alias, that no result variable is unbound on an option path, that all 11 access paths convert eigenvalues to frequencies by the same expression, that stored and iterated meshes (and every other if-selected sibling construction) are configured with the same keyword values, and that writers read only what the API returns. Does not decide that LAPACK eigenvectors diagonalise the matrix or band-connection permutations.",
+        note="Trusted: CPython ast, sympy as normaliser. Assumes for-loops run at least once, == dispatch chains are exhaustive, and 'if b: self._a = True' in __init__ is an invariant.",
+        ref="DESIGN.md §3 C14",
+    ),
     "C20": dict(
         technique="static analysis: source-to-sympy translation of the three equations of state and symbolic differentiation (12 defining-meaning obligations); open-term normal-form comparison of the QHA finite-difference, unit and PV formulas with the documented ones; dispatch/unpack-order table rules",
         level="proof",
